@@ -86,7 +86,7 @@ def run(ctx):
     # ------------------------------------------------------------------ tone contract
     for it in range(48 if T else 16):
         fs = setgv(it)
-        n = 4096
+        n = 4096 if it % 2 == 0 else 4095                       # even and odd record lengths (fftshift and ifftshift differ on odd ones)
         order = 1 + it % 8
         kc = rnd.randrange(int(0.02 * n), int(0.40 * n))        # cutoff bin (on the FFT grid)
         BW = kc * fs / n
@@ -116,6 +116,7 @@ def run(ctx):
             out, H = LPF(np.cos(2 * np.pi * kc * fs / n * t), BW, order, retH=True)
             Hs = np.fft.ifftshift(H)                                   # back to FFT order: bin k <-> k*fs/n
             pairs = [[int(round(2 * 20 * math.log10(abs(Hs[k])) * 1000)), int(round(-a * 1000))] for k, a in zip(ks, lad) if a < 60]
+            pairs.append([int(round(2 * 20 * math.log10(max(abs(Hs[0]), 1e-30)) * 1000)), 0])        # DC bin: unit gain
             events.append({"kind": "reth", "cut_mdB": int(round(20 * math.log10(abs(Hs[kc])) * 1000)), "pairs": pairs}); meta.append(("reth", order))
         ctx.case(("tones", order, kc * 10 // n, it % 3), {"tone contract": {"n": order, "cutoff_bin": kc, "fs": fs}})
     # ------------------------------------------------------------------ history independence
